@@ -328,7 +328,7 @@ func checkLoaderPipeline(w *World, r *Report) {
 		r.Undecided("loader.anchors", "definition loader", "-", "no function in package definition decodes YAML")
 		return
 	}
-	validate := w.FuncByName("definition", "PipelineDef.validate")
+	validate := w.FuncByRole("definition", "PipelineDef.validate", func(f *ssa.Function) bool { return recvIs(f, "PipelineDef") && sigHas(f, nil, []string{"error"}) })
 	for _, ld := range loaders {
 		r.Anchor("definition loader (decodes a file)", FuncName(ld))
 		var updates []*ssa.MapUpdate
@@ -473,7 +473,7 @@ func (w *World) sameValueOrCell(a, b ssa.Value) bool {
 // validation table over sign classes
 
 func checkValidationTable(w *World, r *Report) {
-	v := w.FuncByName("definition", "PipelineDef.validate")
+	v := w.FuncByRole("definition", "PipelineDef.validate", func(f *ssa.Function) bool { return recvIs(f, "PipelineDef") && sigHas(f, nil, []string{"error"}) })
 	if v == nil {
 		r.Undecided("validate.anchors", "PipelineDef.validate", "-", "validation function not found")
 		return
